@@ -156,3 +156,96 @@ Theorem C12_listing_visible_entries :
           visible_entry fs d item /\ x = row_name fs d item.
 Proof. exact listing_visible_entries. Qed.
 Print Assumptions C12_listing_visible_entries.
+
+(* ------------------------------------------------------------------------
+   Translator tie (T-tie).  gen/StaticGen.v is regenerated on every run by
+   harness/py2v_static.py from the current source text of
+     poorwsgi/wsgi.py     Application.handler_from_table, from the statement
+                          after the user-route lookups to the end
+     poorwsgi/request.py  SimpleRequest.document_root, document_index
+     poorwsgi/results.py  directory_index
+   and proved equal to the hand model above (proofs/StaticGenEq.v), for all
+   paths, roots, environments, file systems and directory contents.
+   [environ] is the request's poor_environ as a lookup function; [lower] is
+   str.lower, of which only [lower_on_spec] is assumed (which strings it
+   maps to "on"; derived from the per-code-point fact the harness checks
+   over all of Unicode by C12_lower_on_from_code_points). *)
+Require Import PW.lib.PyStatic PW.gen.StaticGen PW.proofs.StaticGenEq.
+
+(* req.document_root and req.method_number & (METHOD_HEAD | METHOD_GET) *)
+Theorem C12_generated_gate_is_model :
+  forall root mn, gen_gate root mn = negb (is_nil root) && get_or_head mn.
+Proof. exact gen_gate_is_model. Qed.
+Print Assumptions C12_generated_gate_is_model.
+
+(* "%s%s" % (req.document_root,
+             path.normpath("/%s" % req.path.lstrip("/"))) *)
+Theorem C12_generated_rfile_is_model :
+  forall root p, gen_rfile root p = resolved root p.
+Proof. exact gen_rfile_is_model. Qed.
+Print Assumptions C12_generated_rfile_is_model.
+
+Theorem C12_generated_document_root_is_model :
+  forall environ app_root,
+    gen_document_root environ app_root =
+    document_root (environ (s2l "poor_DocumentRoot")) app_root.
+Proof. exact gen_document_root_is_model. Qed.
+Print Assumptions C12_generated_document_root_is_model.
+
+Theorem C12_generated_document_index_is_model :
+  forall lower environ app_index,
+    lower_on_spec lower ->
+    gen_document_index lower environ app_index =
+    document_index (environ (s2l "poor_DocumentIndex")) app_index.
+Proof. exact gen_document_index_is_model. Qed.
+Print Assumptions C12_generated_document_index_is_model.
+
+Theorem C12_lower_on_from_code_points :
+  forall lower1 : Z -> list Z,
+    (forall c, lower1 c <> []) ->
+    (forall c, In 111 (lower1 c) \/ In 110 (lower1 c) ->
+               c = 79 \/ c = 111 \/ c = 78 \/ c = 110) ->
+    lower1 79 = [111] -> lower1 111 = [111] ->
+    lower1 78 = [110] -> lower1 110 = [110] ->
+    lower_on_spec (flat_map lower1).
+Proof. exact charwise_lower_on. Qed.
+Print Assumptions C12_lower_on_from_code_points.
+
+(* directory_index: the isdir test, os.listdir, the ".." entry below the
+   root only, sort, the filter loop, the "/" suffix, IndexError *)
+Theorem C12_generated_directory_index_is_model :
+  forall fs listdir root d,
+    gen_directory_index fs listdir root d = directory_index fs listdir root d.
+Proof. exact gen_directory_index_is_model. Qed.
+Print Assumptions C12_generated_directory_index_is_model.
+
+(* the whole block: gate, file name, the file-system tests on that name,
+   what is answered in each case *)
+Theorem C12_generated_serve_is_model :
+  forall fs listdir root index debug mn p,
+    gen_serve fs listdir root index debug mn p =
+    serve fs listdir root index debug mn p.
+Proof. exact gen_serve_is_model. Qed.
+Print Assumptions C12_generated_serve_is_model.
+
+Theorem C12_generated_serve_request_is_model :
+  forall lower fs listdir environ app_root app_index debug method p,
+    lower_on_spec lower ->
+    gen_serve_request lower fs listdir environ app_root app_index debug
+                      method p =
+    serve_request fs listdir (environ (s2l "poor_DocumentRoot")) app_root
+                  (environ (s2l "poor_DocumentIndex")) app_index
+                  debug method p.
+Proof. exact gen_serve_request_is_model. Qed.
+Print Assumptions C12_generated_serve_request_is_model.
+
+(* confinement stated on the generated code: a file answered by the
+   generated block is the generated file name, root ++ "/" ++ rest with no
+   further leading "/" *)
+Theorem C12_generated_served_file_confined :
+  forall fs listdir root index debug mn p f,
+    gen_serve fs listdir root index debug mn p = OFile f ->
+    f = gen_rfile root p /\
+    exists rest, f = root ++ 47 :: rest /\ starts_slash rest = false.
+Proof. exact gen_served_file_confined. Qed.
+Print Assumptions C12_generated_served_file_confined.
